@@ -60,6 +60,7 @@ Section Safety.
   Definition run_ok (B : list (N * packet)) (x : sample) : Prop :=
     exists h hp rest ds,
       h < 65536 /\
+      N.of_nat (List.length (hp :: rest)) < 65536 /\
       s_pkts x = hp :: rest /\
       Forall2 (fun k p => In (k, p) B) (keys_from h (List.length (hp :: rest))) (hp :: rest) /\
       is_head (p_payload hp) = true /\
@@ -69,7 +70,7 @@ Section Safety.
 
   Lemma run_ok_incl : forall B B' x, incl B B' -> run_ok B x -> run_ok B' x.
   Proof.
-    intros B B' x Hi (h & hp & rest & ds & Hh & H1 & H2 & H3 & H4 & H5).
+    intros B B' x Hi (h & hp & rest & ds & Hh & Hl & H1 & H2 & H3 & H4 & H5).
     exists h, hp, rest, ds. repeat (split; [assumption|]). split; [|tauto].
     eapply Forall2_mono; [|exact H2]. intros k p Hin. apply Hi. exact Hin.
   Qed.
